@@ -62,38 +62,49 @@ theorem table_shapes :
   simp only [Bool.and_eq_true, decide_eq_true_iff, List.all_eq_true, low, high] at this
   exact ⟨this.1.1, this.1.2, this.2⟩
 
+/-- lead bytes of the characters: `11xxxxxx`; the other bytes of a character are `10xxxxxx` -/
+def ucLead (c : Nat) : Bool := decide (192 ≤ c)
+/-- length of a UTF-8 sequence, from its lead byte -/
+def ucLen (c : Nat) : Nat := if c < 224 then 2 else if c < 240 then 3 else 4
+/-- lead byte of the mangled names: `t`, which occurs nowhere else in a name -/
+def nameLead (c : Nat) : Bool := decide (c = 116)
+
+/-- each character is a lead byte followed by continuation bytes, its length being determined by
+the lead byte (UTF-8 self-synchronisation); the characters are pairwise distinct -/
+theorem table_lead_code : LeadCode (fun c => ucLead c = true) ucLen Gen.table :=
+  leadCode_of_leadB (by decide +kernel) table_entries_distinct.1
+
+/-- each mangled name is `t` followed by bytes other than `t`, all names have the same length and
+are pairwise distinct -/
+theorem table_lead_code_swap :
+    LeadCode (fun c => nameLead c = true) (fun _ => pfx.length + 4) (swap Gen.table) := by
+  refine leadCode_of_leadB (by decide +kernel) ?_
+  have : (swap Gen.table).map Prod.fst = Gen.table.map Prod.snd := by
+    unfold swap; rw [List.map_map]; rfl
+  rw [this]; exact table_entries_distinct.2
+
 /-- no character of the table is a substring of another one, and no mangled name is a substring
 of another one -/
 theorem table_no_substring :
-    (∀ a ∈ Gen.table, ∀ b ∈ Gen.table, a.1 <:+: b.1 → a = b) ∧
-    (∀ a ∈ Gen.table, ∀ b ∈ Gen.table, a.2 <:+: b.2 → a = b) := by
-  have h : (Gen.table.all fun a => Gen.table.all fun b =>
-      (!(a.1.isInfixOf b.1) || decide (a = b)) && (!(a.2.isInfixOf b.2) || decide (a = b))) = true := by
-    decide +kernel
-  have key : ∀ a ∈ Gen.table, ∀ b ∈ Gen.table,
-      (a.1 <:+: b.1 → a = b) ∧ (a.2 <:+: b.2 → a = b) := by
-    intro a ha b hb
-    have := List.all_eq_true.mp (List.all_eq_true.mp h a ha) b hb
-    simp only [Bool.and_eq_true, Bool.or_eq_true, Bool.not_eq_true', decide_eq_true_iff] at this
-    constructor
-    · intro hin
-      rcases this.1 with h1 | h1
-      · rw [← List.isInfixOf_iff_infix] at hin; rw [hin] at h1; cases h1
-      · exact h1
-    · intro hin
-      rcases this.2 with h1 | h1
-      · rw [← List.isInfixOf_iff_infix] at hin; rw [hin] at h1; cases h1
-      · exact h1
-  exact ⟨fun a ha b hb => (key a ha b hb).1, fun a ha b hb => (key a ha b hb).2⟩
+    (∀ a ∈ Gen.table, ∀ b ∈ Gen.table, a.1 <:+: b.1 → a.1 = b.1) ∧
+    (∀ a ∈ Gen.table, ∀ b ∈ Gen.table, a.2 <:+: b.2 → a.2 = b.2) := by
+  refine ⟨eq_of_infix_of_leadCode table_lead_code, ?_⟩
+  intro a ha b hb hin
+  have hm : ∀ e ∈ Gen.table, (e.2, e.1) ∈ swap Gen.table := by
+    intro e he; unfold swap; exact List.mem_map.mpr ⟨e, he, rfl⟩
+  exact eq_of_infix_of_leadCode table_lead_code_swap _ (hm a ha) _ (hm b hb) hin
 
 /-- hypotheses of the general lemmas for mangling: characters are non-empty and made of high
 bytes, names are non-empty ASCII, no character can start inside (or together with) another -/
 theorem table_good : Good (fun c => high c = true) Gen.table :=
-  good_of_goodB (by decide +kernel)
+  good_of_checks (h := high) (L := ucLead) (len := ucLen) (by decide +kernel) (by decide +kernel)
+    table_entries_distinct.1
 
 /-- … and for demangling: no mangled name can start inside (or together with) another -/
-theorem table_good_swap : Good (fun c => low c = true) (swap Gen.table) :=
-  good_of_goodB (by decide +kernel)
+theorem table_good_swap : Good (fun c => low c = true) (swap Gen.table) := by
+  have hnd : ((swap Gen.table).map Prod.fst).Nodup := table_lead_code_swap.nodup
+  exact good_of_checks (h := low) (L := nameLead) (len := fun _ => pfx.length + 4)
+    (by decide +kernel) (by decide +kernel) hnd
 
 /-- every mangled name starts with the prefix; the prefix is `t` followed by bytes other than `t` -/
 theorem table_prefix :
@@ -185,13 +196,35 @@ theorem demangle_mangle (s : List Nat) (h : ¬ pfx <:+: s) :
   rw [hp] at hall h
   exact sim_swap_sim table_good table_good_swap t pfx' ht hall s h
 
-/-- the hypothesis cannot be dropped: a string that already contains a mangled name is not
-restored (non-vacuity of the theorem and sharpness of its hypothesis) -/
-example : ∃ s, pfx <:+: s ∧ demangle Gen.table (mangle Gen.table s) ≠ s := by
-  refine ⟨pfx ++ hex4 0x3B1, ?_, ?_⟩
-  · exact List.IsPrefix.isInfix (List.prefix_append _ _)
-  · rw [demangle_is_simultaneous_scan, mangle_is_simultaneous_scan]
-    decide +kernel
+/-- the hypothesis cannot be dropped: a string that is itself a mangled name is left unchanged by
+mangling and is turned into the character by the filter (sharpness of the hypothesis) -/
+theorem demangle_mangle_needs_hypothesis :
+    ∃ s, pfx <:+: s ∧ demangle Gen.table (mangle Gen.table s) ≠ s := by
+  have hmem : ([206, 177], pfx ++ hex4 0x3B1) ∈ Gen.table := by decide +kernel
+  refine ⟨pfx ++ hex4 0x3B1, List.IsPrefix.isInfix (List.prefix_append _ _), ?_⟩
+  have h1 : mangle Gen.table (pfx ++ hex4 0x3B1) = pfx ++ hex4 0x3B1 := by
+    apply mangle_identity_without_supported_character
+    intro e he hin
+    obtain ⟨hne, hH⟩ := table_good.pat e he
+    cases h1 : e.1 with
+    | nil => exact hne h1
+    | cons h0 t =>
+      have hmem0 : h0 ∈ pfx ++ hex4 0x3B1 := hin.subset (by rw [h1]; simp)
+      have hhigh := hH h0 (by rw [h1]; simp)
+      have hlow : ∀ c ∈ pfx ++ hex4 0x3B1, c < 128 := by decide
+      have := hlow h0 hmem0
+      simp only [high, decide_eq_true_iff] at hhigh
+      omega
+  rw [h1, demangle_is_simultaneous_scan]
+  have hsw : (pfx ++ hex4 0x3B1, [206, 177]) ∈ swap Gen.table := by
+    unfold swap; exact List.mem_map.mpr ⟨_, hmem, rfl⟩
+  have hf := findRule_unique (s := (pfx ++ hex4 0x3B1) ++ [])
+    (fun y hy => (table_good_swap.pat y hy).1) table_good_swap.apart hsw (List.prefix_append _ _)
+  have := sim_pattern_append (rules := swap Gen.table) (e := (pfx ++ hex4 0x3B1, [206, 177]))
+    (x := []) (by decide) hf
+  simp only [List.append_nil] at this
+  rw [this, sim_nil]
+  decide
 
 example : ¬ pfx <:+: [206, 177, 61, 49] ∧ Clean [206, 177, 61, 49] := by
   refine ⟨by decide, ?_⟩
